@@ -296,7 +296,8 @@ def sched_part(ctx, sigs):
     total = 0
     try:
         for pair in pairs:
-            bound = 1 if (ctx.quick or len(pair) > 2) else 2
+            # preemption bound 2 multiplies the schedules by the number of switch points (~150 per load): only the first pair gets it
+            bound = 2 if (not ctx.quick and pair == pairs[0]) else 1
             distinct = set()
 
             def make():
@@ -315,7 +316,7 @@ def sched_part(ctx, sigs):
                                   {'got': [o if o is None or o[0] == 'exc' else 'ok-but-different' for o in obs], 'errors': [repr(e) for e in ex.errors if e]},
                                   'each load equals its sequential result', engine='SCHED')
             try:
-                st = sched.explore(make, bound, on_exec, max_execs=(8000 if ctx.quick else 40000))
+                st = sched.explore(make, bound, on_exec, max_execs=(8000 if ctx.quick else 15000))
             except Deadlock as e:
                 ctx.violation('SCHED/deadlock', {'loads': list(pair)}, str(e), 'no deadlock', engine='SCHED')
                 st = {'executions': 0, 'capped': False}
